@@ -273,4 +273,10 @@ sources this model mirrors, re-extracted on every run, is exactly the reviewed i
 (which names the model clause of each).  A changed bound, a new or dropped branch breaks this obligation. -/
 theorem guards_reviewed : Gen.Sites.guardsV5 = Spec.Sites.guardsV5 := by decide +kernel
 
+/-- **Tie (error classes, F29)**: re-extracted on every run — `nonfatalError` in netflow/v5/decoder.go is declared as the
+struct wrapper (as `type nonfatalError error` the case of the type switch in `Decode` matches every error and a failed
+decode hands out a message) and nothing constructs one: every error of the v5 decoder is fatal, which is what
+`V5.decodeWith` transcribes (`Except`: a message or an error, never both) -/
+theorem v5_nonfatal_reviewed : Gen.Sites.nonfatalV5 = Spec.Sites.nonfatalV5 := by decide +kernel
+
 end Vflow.C08
